@@ -578,6 +578,10 @@ fn oracle(c: &Case, ops: &[Op], res: &str) -> String {
     let mut k = Chk(vec![]);
     if res == "fault:panic" {
         k.fail("panic");
+        if raw_udp && v6 && dublin {
+            // C07: the payload length derived from an issuable sequence must fit the packet buffer
+            k.0.push("C07:dublin_v6_payload_for_an_issuable_sequence_does_not_fit_the_packet_buffer".to_string());
+        }
         return k.done();
     }
     // the two sockets created by connect come first
